@@ -21,7 +21,7 @@ NAME_CHARS = string.ascii_uppercase + string.digits + "'*+-_#"
 SAFE_LETTERS = "ABCDFGHIJKLMNOPQRSTUVWXYZ"   # a letter that cannot be part of a float literal (no E)
 
 
-WIDE_CHARS = NAME_CHARS + string.ascii_lowercase + ".,:;@/"
+WIDE_CHARS = NAME_CHARS + string.ascii_lowercase + ".,:;@/{}%\\$&"
 
 
 def _name(rng, maxlen=5, minlen=1, wide=False):
@@ -116,7 +116,7 @@ def gen_session(rng, tier, for_crash=False):
     if kind == "vec":
         box = [round(rng.uniform(0.5, 60), rng.randint(0, 7)) for _ in range(3)]
         if rng.random() < 0.15:
-            box = [round(rng.uniform(100, 999), 3) for _ in range(3)]       # edges of three digits
+            box = [round(rng.uniform(100, 999), 5) for _ in range(3)]       # edges of three digits, all five decimals in use
         if box_form == "int_array":
             box = [float(max(1, round(x))) for x in box]
     elif kind == "diag":
